@@ -23,6 +23,7 @@ func c20(c *eng.Ctx, r *eng.Report) {
 		"R20.6 a record is rewritten read-modify-write — UpdateMiner(m, db, false), which writes stake, account and status together, is given the record just read from the registry — and RemoveMiner erases the four slots only on the `left == 0` edge. " +
 		"R20.7 the stake total and the proposer set used for leader election grow together, by the record's own stake, only for non-nil records whose status is normal and whose ApplyHeight has been reached, and the proposer count is the size of that same set (no second walk with its own filter). " +
 		"R20.11 every lookup answers from the state it is handed: no method of MinerManager consults a process-local cache or writes a package variable — the registration record, stake, account and status live in the AccountDB passed in, and a memo keyed by id outlives the deletion of the record (apply, refund everything, apply again with new keys: lookup by id returns the old ApplyHeight and keys while the registry iteration sees the new record); " +
+		"R20.15 RemoveMiner never returns without having written the record: every return is preceded on every path by a SetData on the miner database (the four erasing writes, or stake = left and status = aborted) — its caller has already scheduled the refund, so a path that writes nothing (a contract-owned miner refunded to exactly 0) leaves the stake in place next to the escrowed refund: the refund can be repeated; " +
 		"R20.14 a refund added to a height's list reaches the map the block's escrow is booked from: RefundInfoList is a struct value, so wherever AddRefundInfo is called on a local copy, that copy is stored into a map afterwards on every path to the function's return — a list read out of map[height]RefundInfoList by value and appended to without being stored back loses the appended refund (finding F31: the second account's refund of a block is dropped, its stake is reduced and nothing is escrowed); " +
 		"R20.13 a miner enters the registry as a normal miner: minerApplyExecutor.Execute sets Status to the constant MinerStatusNormal on the record it hands to AddMiner, on every path — the record is decoded from the transaction's JSON, so otherwise the applicant chooses its status: a record that is locked and registered but aborted (or of an unknown status) is found by id and missing from the proposer totals; " +
 		"R20.12 a miner record disappears only through the reviewed paths: RemoveMiner is called by the refund path (which has computed what is left and scheduled the refund) and by the two one-off clean-ups of unused validators, nowhere else — a second caller that removes an aborted miner to let it apply again drops the stake still locked in the record (200 of 10000 vanish); " +
@@ -46,6 +47,7 @@ func c20(c *eng.Ctx, r *eng.Report) {
 	c20WhoRemovesMiners(c, r)
 	c20ApplyStartsNormal(c, r)
 	c20RefundListWrittenBack(c, r)
+	c20RemoveAlwaysWrites(c, r)
 }
 
 func c20Layers(c *eng.Ctx, r *eng.Report) {
@@ -892,4 +894,27 @@ func c20RefundListWrittenBack(c *eng.Ctx, r *eng.Report) {
 			r.Check(leak == "", rule, key, c.Pos(s.Pos()), "the changed copy is stored into the map before the function returns", eng.FuncName(fn)+" adds a refund to a local copy of a RefundInfoList and can return (at "+leak+") without storing the copy into the map: when the list for that height already exists in the block's context — a second refund transaction of another account in the same block, maturing at the same height — the appended entry is lost: the miner's stake is reduced, nothing is escrowed, and locked + escrow + liquid shrinks (two refunds of 400: 400 come back)")
 		}
 	}
+}
+
+// c20RemoveAlwaysWrites: see R20.15.
+func c20RemoveAlwaysWrites(c *eng.Ctx, r *eng.Report) {
+	const rule = "R20.15"
+	r.Min(rule, 1)
+	fn := c.Func("service", "(*MinerManager).RemoveMiner")
+	if !r.Anchor(fn != nil, rule, "service.(*MinerManager).RemoveMiner") {
+		return
+	}
+	var writes []ssa.Instruction
+	for _, s := range eng.Sites(fn) {
+		if strings.HasSuffix(s.Name(), "AccountDB).SetData") {
+			writes = append(writes, s.Instr)
+		}
+	}
+	bad := ""
+	for _, re := range eng.Returns(fn) {
+		if !eng.MustPassBefore(fn, re.Ret, writes) {
+			bad = c.Pos(re.Ret.Pos())
+		}
+	}
+	r.Check(bad == "" && len(writes) >= 6, rule, "RemoveMiner:always-writes", c.Pos(fn.Pos()), fmt.Sprintf("%d writes; every return follows one", len(writes)), "RemoveMiner can return (at "+bad+") without a single write to the miner's record: GetRefundStake has already computed and scheduled the refund, so the stake slot keeps its old value next to the escrowed amount — for a miner whose controlling account is a contract and whose stake drops to exactly 0, stake no longer equals applied + added − refunded, GetValidatorsStake still counts it, and the refund-all can be repeated to mint tokens")
 }
